@@ -479,13 +479,19 @@ def filePriceNB : FileT :=
     lns := ["P 2024-01-01 \"😀\" 2 USD".toList, "2024-01-02 Shop".toList, "  a:😀  1 \"😀\"".toList, []] }
 
 def usdL : Bytes := [117, 115, 100]   -- usd
-/-- `2024-01-01 Shop` / `  a:b  1 usd  ; c`: a lower-case commodity is a free-text token that
-    ends at the `;`. -/
+/-- `2024-01-01 Shop` / `  a:b  1 usd  ; c`: a lower-case commodity is a free-text token; it ends
+    with its value (fix-trailing-blank-ranges.diff), the blanks before the `;` lie behind it. -/
 def fileText : FileT :=
   { path := "a.journal",
-    tree := { transactions := [txn (R 1 1 1 11) shop [post ⟨ab, R 2 3 2 6⟩ (some (amt usdL (R 2 10 2 15)))]],
+    tree := { transactions := [txn (R 1 1 1 11) shop [post ⟨ab, R 2 3 2 6⟩ (some (amt usdL (R 2 10 2 13)))]],
               directives := [], comments := [], includes := [] },
     spans := [sp .payee shop 0 11 15, sp .account ab 1 2 5, sp .commodity usdL 1 9 12] }
+
+/-- The same file as the parser read it before that repair: the text token ended at the `;`. -/
+def fileTextPinned : FileT :=
+  { fileText with
+    tree := { transactions := [txn (R 1 1 1 11) shop [post ⟨ab, R 2 3 2 6⟩ (some (amt usdL (R 2 10 2 15)))]],
+              directives := [], comments := [], includes := [] } }
 
 /-- b.journal as the client holds it after an unsaved edit: a line was inserted on top. -/
 def fileB' : FileT :=
@@ -624,13 +630,41 @@ theorem quoted_commodity_directive_parsed_faithful :
       (HL.Pipeline.parseText Classes.go quotedText.toUTF8.toList).1 fileQuoted.spans = true := by
   decide +kernel
 
-/-! #### Known finding `text-commodity-trailing-blank` -/
+/-! #### The defect repaired by fix-trailing-blank-ranges.diff (finding `text-commodity-trailing-blank`)
 
-theorem text_commodity_trailing_blank_counterexample :
-    faithfulB fileText.lns fileText.tree fileText.spans = false ∧
-    ∃ l, l ∈ findReferences noTexts .commodity usdL (some (single fileText)) fileText.path none true ∧
-         l ∉ occurrences [(fileText.path, fileText.spans)] .commodity usdL true :=
-  ⟨by decide, ⟨"a.journal", ⟨⟨1, 9⟩, ⟨1, 14⟩⟩⟩, by decide, by decide⟩
+A commodity lexed as free text (`usd`, `шт`) ended where `scanText` stopped, at the `;`: the tree
+was not faithful, references listed 1:9–1:14 and a rename swallowed the blanks.  The repaired
+lexer ends the token with its value (`HL.Props.C06.token_end_is_lexeme_end`). -/
+
+theorem pinned_text_commodity_trailing_blank_counterexample :
+    faithfulB fileTextPinned.lns fileTextPinned.tree fileTextPinned.spans = false ∧
+    (∃ l, l ∈ findReferences noTexts .commodity usdL (some (single fileTextPinned)) fileTextPinned.path none true ∧
+         l ∉ occurrences [(fileTextPinned.path, fileTextPinned.spans)] .commodity usdL true) ∧
+    -- the rename edit 1:9–1:14 swallows the blanks before the comment
+    (∀ new : List Char, applyEditsBackwards "  a:b  1 usd  ; c".toList [(9, 14)] new =
+        "  a:b  1 ".toList ++ new ++ "; c".toList) :=
+  ⟨by decide, ⟨⟨"a.journal", ⟨⟨1, 9⟩, ⟨1, 14⟩⟩⟩, by decide, by decide⟩,
+   fun new => by rw [rename_substitutes _ _ _ (by simp [spansOK])]; simp [substSpans]⟩
+
+/-- The tree of the repaired lexer is faithful, no guard fires, references from every cursor on
+    the symbol lists exactly 1:9–1:12, and a rename leaves the blanks alone. -/
+theorem text_commodity_trailing_blank_exact :
+    faithfulB fileText.lns fileText.tree fileText.spans = true ∧
+    guardsOff ⟨fileText, []⟩ (single fileText) = true ∧
+    (∀ ch ∈ [9, 10, 12], references (requestFrom ⟨fileText, []⟩ fileText [] ⟨1, ch⟩) true =
+      [⟨"a.journal", ⟨⟨1, 9⟩, ⟨1, 12⟩⟩⟩]) ∧
+    (∀ new : List Char, applyEditsBackwards "  a:b  1 usd  ; c".toList [(9, 12)] new =
+        "  a:b  1 ".toList ++ new ++ "  ; c".toList) :=
+  ⟨by decide, by decide, by decide,
+   fun new => by rw [rename_substitutes _ _ _ (by simp [spansOK])]; simp [substSpans]⟩
+
+/-- Text in, spans out: the lexer and parser models on the witness of the former finding,
+    replays/C09/text-commodity-trailing-blank.jsonl, give a faithful tree. -/
+def textCommodityText : String := "2024-01-01 Shop\n  a:b  1 usd  ; c\n"
+theorem text_commodity_parsed_faithful :
+    faithfulB (HL.Text.lines textCommodityText.toList)
+      (HL.Pipeline.parseText Classes.go textCommodityText.toUTF8.toList).1 fileText.spans = true := by
+  decide +kernel
 
 /-! #### Findings about the snapshot the server holds
 
